@@ -95,7 +95,8 @@ def main():
             tests_pass = rc_t == 0
             # run copies of the demo that sit next to the tree they are meant to exercise
             import glob
-            helpers = [h for h in glob.glob(os.path.join(src, "*.py")) if not os.path.basename(h).startswith("demo_")]
+            import re as _re
+            helpers = [h for h in glob.glob(os.path.join(src, "*.py")) if not _re.fullmatch(r"demo_\d+\.py", os.path.basename(h))]
             for h in helpers:
                 shutil.copy(h, d)
             shutil.copy(demo, os.path.join(d, "demo_under_test.py"))
